@@ -11,10 +11,11 @@ CONSTANTS
   AttachGuard = TRUE
   SaveGuard = TRUE
   ObjSeq <- Seq4b
+  HandMode = FALSE
   Bias = TRUE
   Quiet = FALSE
 INIT Init
 NEXT Next
 VIEW view
-INVARIANTS EmitAtEnd RefinesDecl RefCountExact OwnerIffSingle NoDangling ReachableUnlessCyclic
+INVARIANTS EmitAtEnd RefinesDecl RefCountExact OwnerIffSingle NoDangling IdCounter ReachableUnlessCyclic
 CHECK_DEADLOCK FALSE
